@@ -846,6 +846,9 @@ func isLoopHeader(b *ssa.BasicBlock) bool {
 
 // paramValue creates the symbolic entry value of a parameter.
 func (ex *Executor) paramValue(st *State, name string, t types.Type) Value {
+	if !strings.HasPrefix(name, "p.") {
+		name = "p." + name
+	}
 	if isTime(t) {
 		return &TimeV{T: Const(name, SInt)}
 	}
@@ -902,7 +905,7 @@ func defaultTypeHolds(t types.Type) bool {
 // configuration (fields of *Authboss, Config and the module structs) are
 // non-nil when dereferenced or invoked.
 func defaultAssumeNonNil(ref *Term) bool {
-	if ref.Sym && len(ref.Args) == 0 && !strings.Contains(ref.Op, "!") {
+	if ref.Sym && len(ref.Args) == 0 && strings.HasPrefix(ref.Op, "p.") {
 		return true // a parameter
 	}
 	if ref.Sym && strings.HasPrefix(ref.Op, "f!") {
